@@ -5,7 +5,7 @@
                                                                      (mode 1) rises, falls with analog=True
                                                                      (mode 2/3) bool / uint8 container: ind, sign, rises, falls | -7 (TypeError)
    2  fronts 2-D      [2; axis; step; rstep; fstep; mode; nr; nc; data...]  (row-major data)
-   4  read_sync       [4; typ; c0; c1; c2; c3; ntr; start; stop; one; thr; gain; usefloor;
+   4  read_sync       [4; typ; c0; c1; c2; c3; ntr; start; stop; step; one; thr; gain; usefloor;
                        thr_default; nrows; data...]
                       -> read_sync, read_sync_digital, read_sync_analog (volts * one), Reader.read(...)[1];
                          each: 0 (exception) | 1 :: rows   (analog: 2 = returns None)
@@ -36,6 +36,17 @@ Fixpoint dec_lines (n : nat) (l : list Z) : list (Z * list Z) :=
            end
   end.
 
+(* l[::k] for k >= 1 *)
+Fixpoint every_aux (fuel k i : nat) (l : list (list Z)) : list (list Z) :=
+  match l with
+  | [] => []
+  | r :: t => match i with
+              | O => r :: every_aux fuel k (k - 1) t
+              | S j => every_aux fuel k j t
+              end
+  end.
+Definition every (k : nat) (l : list (list Z)) : list (list Z) := every_aux 0 k 0 l.
+
 Definition enc_rows (o : option (list (list Z))) : list Z :=
   match o with None => [0] | Some rows => 1 :: enc_list enc_zlist rows end.
 
@@ -58,9 +69,14 @@ Definition run (inp : list Z) : list Z :=
         enc_list enc_triple (fronts2 axis step x) ++ enc_list enc_pair (rises2 axis rstep false x)
         ++ enc_list enc_pair (falls2 axis fstep false x)
       else enc_list enc_pair (rises2 axis rstep true x) ++ enc_list enc_pair (falls2 axis fstep true x)
-  | 4 :: typ :: c0 :: c1 :: c2 :: c3 :: ntr :: start :: stop :: one :: thr :: gain :: usefloor
+  | 4 :: typ :: c0 :: c1 :: c2 :: c3 :: ntr :: start0 :: stop0 :: step :: one :: thr :: gain :: usefloor
       :: thr_default :: nrows :: data =>
-      let raw := chunks (Z.to_nat nrows) (Z.to_nat ntr) data in
+      let raw0 := chunks (Z.to_nat nrows) (Z.to_nat ntr) data in
+      (* a stepped read raw[start:stop:step] (step >= 1) is every step-th row of raw[start:stop]: the
+         readers then see exactly those rows (everything downstream is per selected row / per column) *)
+      let raw := if step =? 1 then raw0 else every (Z.to_nat step) (slice_rows start0 stop0 raw0) in
+      let start := if step =? 1 then start0 else 0 in
+      let stop := if step =? 1 then stop0 else Z.of_nat (length raw) in
       enc_rows (read_sync typ ntr c0 c1 c2 c3 start stop one thr gain (usefloor =? 1) raw)
       ++ enc_rows (read_sync_digital typ ntr c0 c1 c2 c3 start stop raw)
       ++ match read_sync_analog typ ntr c0 c1 c2 c3 start stop gain raw with
